@@ -620,6 +620,37 @@ func genFile(r *hx.Rng, shift int, variant string, budget int) fileSpec {
 			addStream(st2, units("leaf"), sz)
 		}
 	}
+	if strings.Contains(variant, "embedded") {
+		// an embedded signed package: a sub-storage holding streams named like the two signature streams (AddFile /
+		// DeleteFile work on the root storage only; the digests take nested entries of these names for content)
+		st := &ent{name: units("Inner.msi"), storage: true}
+		copy(st.clsid[:], r.Bytes(16))
+		st.ctime, st.mtime = r.U64(), r.U64()
+		c.root.kids = append(c.root.kids, st)
+		sz := []int{1, 63, 700, 4096, 4500}[r.Intn(5)]
+		ex := 32
+		if !mini {
+			sz, ex = 4096+r.Intn(500), 0
+		}
+		addStream(st, units(sigName), sz)
+		addStream(st, units(sigExName), ex)
+		other := []int{0, 10, 64}[r.Intn(3)]
+		if !mini {
+			other = 0
+		}
+		addStream(st, msiName(r, 1+r.Intn(6)), other)
+		if r.Bool() {
+			st2 := &ent{name: units("Patch"), storage: true}
+			copy(st2.clsid[:], r.Bytes(16))
+			st.kids = append(st.kids, st2)
+			inner := 70
+			if !mini {
+				inner = 0
+			}
+			addStream(st2, units([]string{sigName, "\x05digitalsignature", "\x05DIGITALSIGNATURE"}[r.Intn(3)]), inner)
+			addStream(st2, units("leaf"), 0)
+		}
+	}
 	if strings.Contains(variant, "emptystorage") {
 		st := &ent{name: units("Void"), storage: true}
 		copy(st.clsid[:], r.Bytes(16))
@@ -754,8 +785,15 @@ func genHistory(r *hx.Rng, file []byte, maxSessions int, k int, noMini bool) [][
 	existing := rootStreams(file)
 	ns := 1 + r.Intn(maxSessions)
 	var out [][]step
+	alias := false // the root storage holds a mere case variant of the signature stream name
 	for s := 0; s < ns; s++ {
 		var ss []step
+		if alias {
+			// InsertMSISignature refuses such a document (repair of Fmsi-fold): delete the variant first, by yet
+			// another case variant of the name
+			ss = append(ss, step{kind: "d", name: units("\x05DIGITALSIGNATURE")})
+			alias = false
+		}
 		pk := sigSizes[(k+s*3)%len(sigSizes)]
 		ex := exSizes[(k/2+s)%len(exSizes)]
 		if noMini && r.Intn(4) != 0 { // small streams cannot be added without a mini-stream: mostly avoid
@@ -788,6 +826,7 @@ func genHistory(r *hx.Rng, file []byte, maxSessions int, k int, noMini bool) [][
 		case 4: // name differing only in case from the signature stream (EqualFold replacement)
 			ss = append(ss, step{kind: "g", n1: pk, n2: ex, salt: r.U64() >> 2})
 			ss = append(ss, step{kind: "a", name: units("\x05digitalsignature"), n1: 1 + r.Intn(200), salt: r.U64() >> 2})
+			alias = true
 		default:
 			ss = append(ss, step{kind: "g", n1: pk, n2: ex, salt: r.U64() >> 2})
 		}
@@ -927,6 +966,18 @@ func Gen(w *bufio.Writer, seed uint64, tier string) {
 		k++
 		emit(fmt.Sprintf("mixedcase/%d", shift), f.data, genHistory(r, f.data, 1, k, false))
 	}
+	// an embedded signed package (sub-storage with its own \x05DigitalSignature / \x05MsiDigitalSignatureEx streams):
+	// signing the outer document must leave the nested streams alone
+	for _, shift := range []int{9, 12} {
+		for _, v := range []string{"embedded", "embedded+presigned", "embedded+gaps+presigned", "embedded+nomini"} {
+			f := genFile(r, shift, v, 9000)
+			for h := 0; h < 2; h++ {
+				k++
+				emit(fmt.Sprintf("%s/%d", v, shift), f.data, genHistory(r, f.data, 2, k, strings.Contains(v, "nomini")))
+			}
+			emit(fmt.Sprintf("%s/%d", v, shift), f.data, [][]step{{{kind: "g", n1: 700 + 3500*(shift/12), n2: 32, salt: r.U64() >> 2}}, {{kind: "g", n1: 4200, n2: 0, salt: r.U64() >> 2}}})
+		}
+	}
 	// an existing DIFAT sector (110+ FAT sectors, mostly describing sectors beyond EOF)
 	nd := 1
 	if tier == "thorough" {
@@ -968,7 +1019,7 @@ func Gen(w *bufio.Writer, seed uint64, tier string) {
 	genAtab(w, hx.NewRng(seed^0xa7ab), tier)
 	// (c) digest: tar vs direct on every generated shape once more, unmodified
 	for _, shift := range []int{9, 12} {
-		for _, v := range []string{"plain", "nested", "nested+presigned", "gaps+presigned", "nested+nomini", "emptystorage"} {
+		for _, v := range []string{"plain", "nested", "nested+presigned", "gaps+presigned", "nested+nomini", "emptystorage", "embedded", "embedded+presigned"} {
 			f := genFile(r, shift, v, 9000)
 			fmt.Fprintf(w, "C18 digest %s/%d %s\n", v, shift, hx.Hex(f.data))
 		}
